@@ -672,6 +672,7 @@ def class_programs(rep: Report, rng: Rng, nprog: int):
 
 def run(rep: Report):
     rng = Rng(rep.seed * 1000003 + 6)
+    from .. import opscheck; opscheck.check_ops(rep, ["binned"])
     deadline = time.time() + budget(rep.tier, 45, 800)
     check_known_finding(rep)
     check_threshold_glue(rep)
